@@ -107,6 +107,8 @@ EXTRA["C18"].append("The traversal does not re-enter itself through defer_destro
 EXTRA.setdefault("C20", []).append("Collections do not nest across the participants registered during tear-down (F15, fixed).")
 EXTRA.setdefault("C12", []).append("Every modular comparison of the cascade uses a window read after the last re-pin point (F17, fixed).")
 EXTRA["C02"].append("Re-pins during a collection are gated by the guard count (F13, fixed); stamp windows are fresh (F17, fixed).")
+EXTRA["C02"].append("Known finding F18: the same-pass destruction of a child is not gated on guards that pop_edges/Drop of its parent "
+                    "created and kept.")
 EXTRA["C04"].append("Known finding F14: a panicking user destructor during a collection (no unwind guard in unpin / Bag::drop).")
 EXTRA["C15"].append("Known finding F14: a panicking user destructor during a collection (no unwind guard in unpin / Bag::drop).")
 EXTRA["C16"] = ["unpin writes back a guard count read after the collection (F11, fixed)."]
